@@ -4,6 +4,7 @@ import (
 	"runtime"
 
 	"github.com/megaease/easegress/pkg/filters"
+	"github.com/megaease/easegress/pkg/object/serviceregistry"
 )
 
 // Added by the verification harness (httpchain); not part of easegress.
@@ -43,4 +44,18 @@ func HCRelease() {
 		}
 	}
 	hcTracking, hcTracked = false, nil
+}
+
+// HCUseService delivers a service-registry instance list (one instance, tagged
+// "live") to the main pool of every tracked Proxy, the way the pool's registry
+// watcher does; it returns the number of pools updated.
+func HCUseService(address string, port uint16) int {
+	n := 0
+	for _, p := range hcTracked {
+		p.mainPool.useService(map[string]*serviceregistry.ServiceInstanceSpec{
+			"i1": {RegistryName: "reg", ServiceName: "svc", InstanceID: "i1", Address: address, Port: port, Tags: []string{"live"}},
+		})
+		n++
+	}
+	return n
 }
